@@ -340,6 +340,11 @@ type Doc struct {
 	Body    string        `json:"body"`             // inner HTML of <body>
 	Props   []int         `json:"props"`            // observed properties
 	Pseudo  bool          `json:"pseudo,omitempty"` // also observe ::before, ::after, ::marker
+	// attributes of <html>, e.g. ` class="c3"`
+	HTMLAttrs string `json:"html_attrs,omitempty"`
+	// compare with the specification instead of the model (documents outside
+	// the domain of the model = spec theorem: `&` in a top-level rule)
+	VsSpec bool `json:"vs_spec,omitempty"`
 }
 
 // ------------------------------------------------------------------ running /repo
@@ -423,7 +428,7 @@ func (d *Doc) materialise() (htmlText string, ua, ph string, users []string, f *
 			head.WriteString(el)
 		}
 	}
-	htmlText = "<!DOCTYPE html><html><head>\n" + head.String() + "</head><body>" + d.Body + "\n" + tail.String() + "</body></html>"
+	htmlText = "<!DOCTYPE html><html" + d.HTMLAttrs + "><head>\n" + head.String() + "</head><body>" + d.Body + "\n" + tail.String() + "</body></html>"
 	return
 }
 
@@ -473,7 +478,7 @@ func (d *Doc) run() ([]observed, string, error) {
 				inBody = true
 			}
 		}
-		if !inBody || n.Data == "style" || n.Data == "link" {
+		if !(inBody || n.Data == "html") || n.Data == "style" || n.Data == "link" {
 			continue
 		}
 		st := sf.Get(e, "")
@@ -599,7 +604,11 @@ func (d *Doc) coq(obs []observed) string {
 		}
 		elems = append(elems, "(EO "+vlib.List(path)+" "+vlib.List(vals)+" "+vlib.List(pos)+")")
 	}
-	return fmt.Sprintf("CDoc %d %s %s %d %s %d %s %s %s", d.Device, vlib.Bool(d.Hints), rulesCoq(d.UA), d.Device,
+	ctor := "CDoc"
+	if d.VsSpec {
+		ctor = "CDocSpec"
+	}
+	return fmt.Sprintf(ctor+" %d %s %s %d %s %d %s %s %s", d.Device, vlib.Bool(d.Hints), rulesCoq(d.UA), d.Device,
 		rulesCoq(d.PH), d.Device, vlib.List(authors), vlib.List(users), vlib.List(elems))
 }
 
@@ -1345,7 +1354,32 @@ func main() {
 		}
 	}
 
-	// 6. random documents
+	// 6. `&` in a top-level rule (css-nesting: :scope, specificity 0; the code
+	// reads :root with specificity (0,1,0)): compared with the specification
+	root := &Sel{K: KRoot}
+	topAmps := []*Sel{amp, and(amp, class(3)), desc(amp, tag(1)), child(amp, tag(8)), desc(amp, class(1))}
+	rivals := []*Sel{tag(9), root, univ, class(3), tag(1), class(1), and(tag(1), class(1)), tag(8), and(root, class(3))}
+	for ai, a := range topAmps {
+		for ri, rv := range rivals {
+			for order := 0; order < 2; order++ {
+				prop := []int{0, 3, 4}[(ai+ri+order)%3]
+				d1 := Decl{Prop: prop, Vid: 11, Imp: (ai+ri)%5 == 0}
+				d2 := Decl{Prop: prop, Vid: 12, Imp: (ai+ri)%5 == 0}
+				r1 := Rule{K: RStyle, G: []*Sel{a}, B: []Item{{D: &d1}}}
+				r2 := Rule{K: RStyle, G: []*Sel{rv}, B: []Item{{D: &d2}}}
+				rs := []Rule{r1, r2}
+				if order == 1 {
+					rs = []Rule{r2, r1}
+				}
+				d := &Doc{Device: 1, Props: []int{prop}, HTMLAttrs: " class=\"c3\"", VsSpec: true,
+					Body:    "<p class=c1>x</p><div><p>y</p></div>",
+					Authors: []AuthorSheet{{Rules: rs}}}
+				emitDoc(w, d, "topamp", []string{"top-amp"}, "")
+			}
+		}
+	}
+
+	// 7. random documents
 	for w.N() < *n {
 		r := rng.Fork()
 		d := randomDoc(r)
